@@ -214,6 +214,18 @@ Section J.
       symmetry. apply sync_start. apply Nat.mod_upper_bound. lia.
     Qed.
 
+    (* as coded (closing_joint = false): all joints between segment i and i+1 *)
+    Corollary joints_synced_as_coded i : closing_joint = false -> Datatypes.S i < n ->
+      peq (s_end (nth i path d)) (s_start (nth (Datatypes.S i) path d)) = true ->
+      s_end (nth i (sync path new0) d) = s_start (nth (Datatypes.S i) (sync path new0) d).
+    Proof.
+      intros Hcj Hi Hj.
+      pose proof (Nat.mod_small (Datatypes.S i) n Hi) as Hm.
+      rewrite <- Hm at 1. apply joints_synced.
+      - unfold njoints. rewrite Hcj. lia.
+      - unfold joined. now rewrite Hm.
+    Qed.
+
     (* segments that are not the left side of a coinciding enumerated joint are
        exactly what the kernel returned: the operation acts segment-wise *)
     Theorem sync_untouched j : (njoints n <= j \/ joined j = false) ->
